@@ -127,6 +127,9 @@ def syncRegistry (name : String) (p : List Nat) : Option SyncSpec :=
   | "mulconst_int", [b, v] => some (mulConstInt b v)
   | "mulconst_f32", [v] => some (mulConstF32 v)
   | "xorconst", [v] => some (xorConst v)
+  -- convert::Map with the harness's closures: 3x + 7 (mod 2^32), or byte k of x
+  | "map", [k] => some (stateless 1 1 fun xs =>
+      some [if k = 0 then (3 * xs.getD 0 0 + 7) % 2 ^ 32 else (xs.getD 0 0 / 2 ^ (8 * k)) % 256])
   | "xor", [] => some xor2
   | "add_int", [b] => some (addInt b)
   | "add_f32", [] => some addF32
